@@ -285,15 +285,22 @@ theorem linkOK_empty (bs : List Broker) (u : Bool) : LinkOK bs { up := u } :=
 theorem linkOK_complete (bs : List Broker) (u : Bool) : LinkOK bs { up := u, gossip := some .complete } :=
   ⟨fun m h => by simp at h, fun e h => by simp at h, fun w h => by simp at h⟩
 
-theorem mapOK_pending_merge (bs : List Broker) (g d : Pending) (hg : ∀ m, g = .data m → MapOK bs m)
-    (hd : ∀ m, d = .data m → MapOK bs m) : ∀ m, g.merge d = .data m → MapOK bs m := by
-  intro m h
-  cases g <;> cases d <;> simp [Pending.merge] at h
-  subst h
-  exact mapOK_merge bs _ _ (hg _ rfl) (hd _ rfl)
+theorem mapOK_payload (bs : List Broker) (cur : Map) (hcur : MapOK bs cur) (g : Pending)
+    (hg : ∀ m, g = .data m → MapOK bs m) : MapOK bs (g.payload cur) := by
+  cases g with
+  | complete => exact hcur
+  | data m => exact hg m rfl
 
-theorem linkOK_send (bs : List Broker) (l : Link) (d : Pending) (hl : LinkOK bs l)
-    (hd : ∀ m, d = .data m → MapOK bs m) : LinkOK bs (l.send d) := by
+theorem mapOK_pending_merge (bs : List Broker) (cur : Map) (hcur : MapOK bs cur) (g d : Pending)
+    (hg : ∀ m, g = .data m → MapOK bs m)
+    (hd : ∀ m, d = .data m → MapOK bs m) : ∀ m, g.merge cur d = .data m → MapOK bs m := by
+  intro m h
+  simp only [Pending.merge, Pending.data.injEq] at h
+  subst h
+  exact mapOK_merge bs _ _ (mapOK_payload bs cur hcur g hg) (mapOK_payload bs cur hcur d hd)
+
+theorem linkOK_send (bs : List Broker) (l : Link) (cur : Map) (hcur : MapOK bs cur) (d : Pending) (hl : LinkOK bs l)
+    (hd : ∀ m, d = .data m → MapOK bs m) : LinkOK bs (l.send cur d) := by
   unfold Link.send
   split
   · exact hl
@@ -304,7 +311,7 @@ theorem linkOK_send (bs : List Broker) (l : Link) (d : Pending) (hl : LinkOK bs 
     | none => rw [hg] at hm; exact hd m hm
     | some g =>
       rw [hg] at hm
-      exact mapOK_pending_merge bs g d (fun m' h' => hl.gossip m' (by rw [hg, h'])) hd m hm
+      exact mapOK_pending_merge bs cur hcur g d (fun m' h' => hl.gossip m' (by rw [hg, h'])) hd m hm
 
 theorem linkOK_broadcast (bs : List Broker) (l : Link) (src : PeerName) (m : Map) (hl : LinkOK bs l)
     (hm : MapOK bs m) : LinkOK bs (l.broadcast src m) := by
@@ -372,6 +379,12 @@ theorem broadcastFrom_brokers (c : Cluster) (a src : PeerName) (m : Map) (to : L
   | nil => rfl
   | cons x to ih => rw [List.foldl_cons, ih]; rfl
 
+theorem mapOK_stateOf (c : Cluster) (hc : OInv c) (a : PeerName) : MapOK c.brokers (c.stateOf a) := by
+  unfold Cluster.stateOf
+  cases hb : c.broker? a with
+  | none => exact mapOK_nil _ hc.nonneg
+  | some x => exact hc.states x (broker?_mem c a x hb)
+
 theorem oinv_sendFrom (c : Cluster) (a : PeerName) (d : Pending) (to : List PeerName) (hc : OInv c)
     (hd : ∀ m, d = .data m → MapOK c.brokers m) : OInv (c.sendFrom a d to) := by
   unfold Cluster.sendFrom
@@ -379,7 +392,7 @@ theorem oinv_sendFrom (c : Cluster) (a : PeerName) (d : Pending) (to : List Peer
   | nil => exact hc
   | cons x to ih =>
     rw [List.foldl_cons]
-    exact ih _ (oinv_setLink c a x _ hc (linkOK_send _ _ d (linkOK_link c hc a x) hd)) hd
+    exact ih _ (oinv_setLink c a x _ hc (linkOK_send _ _ _ (mapOK_stateOf c hc a) d (linkOK_link c hc a x) hd)) hd
 
 theorem oinv_broadcastFrom (c : Cluster) (a src : PeerName) (m : Map) (to : List PeerName) (hc : OInv c)
     (hm : MapOK c.brokers m) : OInv (c.broadcastFrom a src m to) := by
@@ -824,12 +837,7 @@ theorem oinv_step_pick (c : Cluster) (a b src : PeerName) (hc : OInv c) :
       · exact hl.wire w h
       · rw [List.mem_singleton] at h
         subst h
-        cases g with
-        | complete =>
-          cases hb : c.broker? a with
-          | none => exact mapOK_nil _ hc.nonneg
-          | some x => exact hc.states x (broker?_mem c a x hb)
-        | data m => exact hl.gossip m hg
+        exact mapOK_payload _ _ (mapOK_stateOf c hc a) g (fun m hm => hl.gossip m (by rw [hg, hm]))
     · split
       · rename_i m hm
         apply oinv_setLink _ _ _ _ hc
@@ -847,7 +855,7 @@ theorem oinv_step_pick (c : Cluster) (a b src : PeerName) (hc : OInv c) :
 theorem oinv_step_gossip (c : Cluster) (a b : PeerName) (hc : OInv c) :
     OInv (c.step (.gossip a b)).1 := by
   simp only [Cluster.step]
-  exact oinv_setLink c a b _ hc (linkOK_send _ _ _ (linkOK_link c hc a b) (by intro m h; cases h))
+  exact oinv_setLink c a b _ hc (linkOK_send _ _ _ (mapOK_stateOf c hc a) _ (linkOK_link c hc a b) (by intro m h; cases h))
 
 theorem oinv_step_linkDown (c : Cluster) (a b : PeerName) (hc : OInv c) :
     OInv (c.step (.linkDown a b)).1 := by
